@@ -335,6 +335,10 @@ theorem readers_step {σ σ' : State} {a : Action} (hb : Basic σ) (hc : Cover c
     intro j r hj
     obtain ⟨g1, rfl⟩ := doPublish_some h
     exact rinv_frame (σ := σ) hb rfl rfl rfl (Or.inl rfl) rfl (Nat.le_add_right _ _) (fun _ h => h) (hR j r hj)
+  | seqSkip n =>
+    intro j r hj
+    obtain ⟨g1, g2, rfl⟩ := doSeqSkip_some h
+    exact rinv_frame (σ := σ) hb rfl rfl rfl (Or.inl rfl) rfl (Nat.le_add_right _ _) (fun _ h => h) (hR j r hj)
   | rotate =>
     intro j r hj
     have hcopy := h
@@ -468,7 +472,7 @@ theorem readers_step {σ σ' : State} {a : Action} (hb : Basic σ) (hc : Cover c
   | trDiscard =>
     intro j r hj
     obtain ⟨t, g1, g2, rfl⟩ := doTrDiscard_some h
-    exact rinv_frame (σ := σ) hb rfl rfl rfl (Or.inl rfl) rfl (Nat.le_refl _) (fun _ h => h) (hR j r hj)
+    exact rinv_frame (σ := σ) hb rfl rfl rfl (Or.inl rfl) rfl (Nat.le_max_left _ _) (fun _ h => h) (hR j r hj)
 
 /-- all invariants together -/
 structure Inv (c : UCmp) (σ : State) : Prop where
